@@ -17,8 +17,13 @@ package main
 // and where the rewrite is safe (conservative side conditions below).
 
 import (
+	"bufio"
 	"bytes"
 	"fmt"
+	"io"
+	"os"
+	"os/exec"
+	"sync/atomic"
 	"regexp"
 	"strconv"
 	"strings"
@@ -91,6 +96,57 @@ func cmspecNorm(h []byte) []byte {
 		out = append(out, h[i])
 	}
 	return out
+}
+
+// ---------- a small pool of long-running driver processes for single questions (attribution, replays) ----------
+// The driver flushes its output when it reads the line "sync"; a question is sent as "<line>\nsync\n" and two
+// answer lines are read back.
+
+type cmspecProc struct {
+	mu  sync.Mutex
+	in  io.WriteCloser
+	out *bufio.Reader
+	bad bool
+}
+
+var (
+	cmspecPool     []*cmspecProc
+	cmspecPoolOnce sync.Once
+	cmspecPoolNext uint32
+)
+
+func cmspecAskOne(line string) (string, error) {
+	cmspecPoolOnce.Do(func() {
+		for i := 0; i < 8; i++ {
+			cmd := exec.Command(driverPath)
+			in, err1 := cmd.StdinPipe()
+			out, err2 := cmd.StdoutPipe()
+			if err1 != nil || err2 != nil || cmd.Start() != nil {
+				continue
+			}
+			cmspecPool = append(cmspecPool, &cmspecProc{in: in, out: bufio.NewReaderSize(out, 1<<16)})
+		}
+	})
+	if len(cmspecPool) > 0 {
+		p := cmspecPool[int(atomic.AddUint32(&cmspecPoolNext, 1))%len(cmspecPool)]
+		p.mu.Lock()
+		defer p.mu.Unlock()
+		if !p.bad {
+			if _, err := io.WriteString(p.in, line+"\nsync\n"); err == nil {
+				a, err1 := p.out.ReadString('\n')
+				_, err2 := p.out.ReadString('\n')
+				if err1 == nil && err2 == nil {
+					return strings.TrimRight(a, "\n"), nil
+				}
+			}
+			p.bad = true
+		}
+	}
+	r, err := runDriver(driverPath, []string{line})
+	if err != nil || len(r) != 1 {
+		return "", fmt.Errorf("driver: %v", err)
+	}
+	return r[0], nil
 }
 
 func cmspecAsk(lines []string) ([]string, error) {
@@ -173,7 +229,7 @@ func implCMSpec(c Case) ImplResult {
 			resp = r[0]
 		}
 		parts := strings.Split(resp, " ")
-		if len(parts) < 2 {
+		if len(parts) != 2 {
 			return ImplResult{Out: resp, Key: ""}
 		}
 		src, want := unhx(parts[0]), unhx(parts[1])
@@ -188,25 +244,55 @@ func implCMSpec(c Case) ImplResult {
 		}
 		if !bytes.Equal(cmspecNorm(got), cmspecNorm(want)) {
 			clause := "constructed-document-differs"
-			// The driver also sends the same document respelled along single choice axes (t: indentation with
-			// spaces instead of tabs, e: `&` in destinations as an entity instead of a backslash escape, te: both).
-			// If such a respelling renders as prescribed, the difference is attributed to that axis and reported
-			// under its own clause (both are known deviations, see KNOWN_FINDINGS); the line compared with the
-			// model is then the model's, so that a known deviation does not also count as a broken correspondence.
-			for _, alt := range parts[2:] {
+			// Attribution: the driver is asked (only now) for the same document respelled along choice axes; the tag
+			// lists the respelled axes: e `&` in destinations as an entity instead of a backslash escape; t leading
+			// indentation with spaces instead of tabs; l white space after list markers with spaces; d white space after
+			// block-quote markers before link reference definitions with spaces; p "space then tab" after a block-quote
+			// marker as a plain tab; q white space after block-quote markers (all other lines) with spaces. Order: the
+			// single known axes, all known axes together, then q. The first respelling that renders as prescribed
+			// attributes the difference (clauses below). For the known clauses the line compared with the model is the
+			// model's, so that a known deviation does not also count as a broken correspondence; a difference that needs
+			// the q axis (2.2, examples 5-9: a tab directly after `>`) is NOT known: it stays a violation and a disagreement.
+			var alts []string
+			if r, err := cmspecAskOne("cmspec alts " + c.Op + " " + strings.Join(c.Args, " ")); err == nil {
+				alts = strings.Split(r, " ")
+			}
+			for _, alt := range alts {
 				k := strings.IndexByte(alt, ':')
-				if k < 0 {
+				if k <= 0 {
 					continue
 				}
 				if bytes.Equal(cmspecNorm(cmspecConvert(unhx(alt[k+1:]))), cmspecNorm(want)) {
-					if alt[:k] == "e" {
+					tag := alt[:k]
+					known := true
+					switch tag {
+					case "e":
 						clause = "escaped-amp-in-destination-differs"
-					} else {
+					case "t", "p":
 						clause = "tab-indentation-differs"
+					case "l":
+						clause = "tab-after-list-marker-differs"
+					case "d":
+						clause = "tab-before-definition-title-differs"
+					case "tldpe":
+						clause = "several-known-deviations-combined"
+					default:
+						clause = "tab-after-quote-marker-differs"
+						known = false
 					}
-					res.Out = resp
+					if known {
+						res.Out = resp
+					}
 					break
 				}
+			}
+			if f := os.Getenv("CMSPEC_DUMP"); f != "" { // debugging aid: every difference, not only the kept samples
+				cmspecMu.Lock()
+				if fh, err := os.OpenFile(f, os.O_APPEND|os.O_CREATE|os.O_WRONLY, 0o644); err == nil {
+					fmt.Fprintf(fh, "%s\t%s\t%q\t%q\t%q\n", clause, c.Line("cmspec"), src, got, want)
+					fh.Close()
+				}
+				cmspecMu.Unlock()
 			}
 			res.Fails = append(res.Fails, OracleFail{Property: "C02", Clause: clause,
 				Detail: fmt.Sprintf("source=%q got=%q want=%q", src, got, want)})
